@@ -72,6 +72,19 @@ def _skel_rows(skel: Dict[str, Any]) -> Tuple[List[Any], Any]:
     return rows, root
 
 
+def _parent_first(skel: Dict[str, Any]) -> bool:
+    """Hypothesis of C10_stub_build_eq on the order the code iterates the skeleton in
+    (JSON object order of the manifest): every path comes after its parent."""
+    seen = {"/"}
+    for p in skel:
+        if p != "/":
+            par = p.rsplit("/", 1)[0] or "/"
+            if par not in seen:
+                return False
+        seen.add(p)
+    return True
+
+
 def _shape(rows) -> List[Any]:
     """paths, kinds, attribute names — without patch indices."""
     return [[r[0], r[1]] for r in rows]
@@ -105,7 +118,7 @@ def _observe_commit(rec) -> Dict[str, Any]:
         rows, root = _skel_rows(mf["skeleton"])
         mub = mf["user_block"]
         out["mf"] = {"sha": "sha256:" + hashlib.sha256(b).hexdigest(), "uuid": str(mf["manifest_uuid"]),
-                     "skel": rows, "root": root, "exts": mf["manifest_exts"],
+                     "skel": rows, "root": root, "exts": mf["manifest_exts"], "parent_first": _parent_first(mf["skeleton"]),
                      "ub": {"rec": str(mub["record_uuid"]), "idx": int(mub["patch_index"]), "pid": str(mub["patch_uuid"]),
                             "prev": mub["prev_patch"], "hash": mub["hdf5_hashsum"], "has_ext": bool(mub["ub_exts"])}}
     else:
@@ -671,6 +684,10 @@ def run(ctx: vlib.Ctx):
         stats["upd_with_exts"] += case["upd"][1] is not None
         for o in case["upd"][0]:
             kinds[o[0]] = kinds.get(o[0], 0) + 1
+        for o in ob["rounds"] + [ob["stub"], ob["sp"], ob["direct"]]:
+            if o["mf"] is not None:
+                stats["manifests"] = stats.get("manifests", 0) + 1
+                stats["manifests_listed_parent_first"] = stats.get("manifests_listed_parent_first", 0) + bool(o["mf"]["parent_first"])
         if index_observation(ob):
             stats["patch_index_differs_after_stub_patch"] += 1
         if ok >= 1 and len(case["rounds"]) >= 2 and len(ob["stub"]["skel"]) >= 2:
@@ -744,6 +761,9 @@ def run(ctx: vlib.Ctx):
         ctx.notes.append(f"observation (not demanded by the property): in {stats['patch_index_differs_after_stub_patch']} cases the manifest of "
                          "the stub-made patch records the stub's patch index for nodes that the real record created in earlier patches "
                          "(paths, kinds and attribute names agree)")
+    if stats.get("manifests", 0) != stats.get("manifests_listed_parent_first", 0):
+        ctx.notes.append("some manifest lists a path before its parent: outside the hypothesis of C10_stub_build_eq "
+                         "(the raw stub container is still compared with stub_of in every case)")
     if stats["timeouts"]:
         ctx.notes.append(f"{stats['timeouts']} case(s) timed out under load and were skipped")
     ctx.assumptions += ["keys from the IH5 alphabet (printable ASCII without '@' and '/'), '.' excluded",
